@@ -134,6 +134,7 @@ struct Prog {
 	long rounds;            // per thread
 	std::vector<std::vector<uint8_t>> script; // per thread: small repeating op pattern
 	bool disjoint_work;
+	bool via_container = false; // extra references are held by (and released through) thread-private arrays / objects
 };
 struct ThreadArg {
 	int idx;
@@ -178,10 +179,50 @@ static void *worker(void *a)
 			json_object_get(nodes[n]->node);
 		t->start2->wait();
 	}
+	// thread-private containers that own references to the shared nodes: releasing goes through the containers' own
+	// teardown paths (element delete, overwrite, container destruction), not through a json_object_put call made here
+	json_object *parr = p.via_container ? json_object_new_array() : nullptr;
+	json_object *pobj = p.via_container ? json_object_new_object() : nullptr;
 	for (long r = 0; r < p.rounds; r++)
 	{
 		uint8_t op = sc[(size_t)r % sc.size()];
 		size_t n = (op >> 2) % nodes.size();
+		if (p.via_container && (op & 0x40))
+		{
+			size_t len = json_object_array_length(parr);
+			switch (op & 3)
+			{
+			case 0:
+				if (len < 64)
+				{
+					json_object_array_add(parr, json_object_get(nodes[n]->node));
+					break;
+				}
+				// fall through: full, release one
+			case 1:
+				if (len > 0)
+					json_object_array_del_idx(parr, len - 1, 1);
+				break;
+			case 2:
+				if (len > 0) // overwrite an occupied slot: the old element is released by the array
+					json_object_array_put_idx(parr, (size_t)r % len, json_object_get(nodes[n]->node));
+				break;
+			default:
+				// object member replace / delete
+				if (r & 1)
+					json_object_object_add(pobj, "k", json_object_get(nodes[n]->node));
+				else
+					json_object_object_del(pobj, "k");
+				break;
+			}
+			if ((r & 1023) == 1023)
+			{
+				// whole-container teardown with live elements
+				json_object_put(parr);
+				parr = json_object_new_array();
+			}
+			continue;
+		}
 		switch (op & 3)
 		{
 		case 0:
@@ -229,6 +270,11 @@ static void *worker(void *a)
 		}
 	}
 	// release everything this thread holds, including the reference pre-acquired for it
+	if (p.via_container)
+	{
+		json_object_put(parr);
+		json_object_put(pobj);
+	}
 	for (size_t n = 0; n < nodes.size(); n++)
 	{
 		for (int k = 0; k < held[n]; k++)
@@ -297,6 +343,7 @@ static void run_refcount(Choices &c, Ctx &ctx)
 #endif
 	p.disjoint_work = c.coin(50);
 	p.cold_start = c.coin(40);
+	p.via_container = c.coin(40);
 	for (int i = 0; i < p.nthreads; i++)
 	{
 		std::vector<uint8_t> sc;
@@ -386,7 +433,7 @@ static void run_refcount(Choices &c, Ctx &ctx)
 		mism += a.mismatches;
 	}
 	std::string desc = str(p.nthreads) + " threads x " + str(p.rounds) + " ops on " + str(p.nnodes) + " shared node(s)" + (p.disjoint_work ? " + disjoint-tree work" : "") +
-	                   (main_last ? ", main thread releases last" : ", main thread releases concurrently") + (p.cold_start ? ", cold start from a count of 1" : "");
+	                   (main_last ? ", main thread releases last" : ", main thread releases concurrently") + (p.cold_start ? ", cold start from a count of 1" : "") + (p.via_container ? ", references also held and released through private containers" : "");
 	ctx.note(desc);
 	int destroyed_total = 0;
 	for (auto s : nodes)
@@ -396,7 +443,8 @@ static void run_refcount(Choices &c, Ctx &ctx)
 	for (size_t i = 0; i < nodes.size(); i++)
 		if (nodes[i]->destroyed.load() != 1)
 			ctx.fail("destroy-count", "shared node " + str(i) + " was destroyed " + str(nodes[i]->destroyed.load()) + " times after all references were released (" + desc + ")");
-	if (freed != (long)nodes.size())
+	// (a last reference dropped inside a container teardown is not reported to any caller)
+	if (p.via_container ? freed > (long)nodes.size() : freed != (long)nodes.size())
 		ctx.fail("put-freed-count", "json_object_put reported 'freed' " + str(freed) + " times for " + str(nodes.size()) + " node(s) (" + desc + ")");
 	if (mism)
 		ctx.fail("disjoint-interference", str(mism) + " results of private-tree work or reads through held references were wrong (" + desc + ")");
@@ -408,6 +456,8 @@ static void run_refcount(Choices &c, Ctx &ctx)
 	ctx.label(p.disjoint_work ? "with_disjoint_work" : "refcount_only");
 	if (p.cold_start)
 		ctx.label("cold_start_from_count_1");
+	if (p.via_container)
+		ctx.label("released_through_private_containers");
 	uint64_t h = hash_u64((uint64_t)p.nthreads * 1000003 + (uint64_t)p.rounds);
 	for (auto &sc : p.script)
 		h = fnv1a(sc.data(), sc.size(), h);
